@@ -143,6 +143,7 @@ public:
     QMap<QString, QString> fastTokens;      // token -> localpart
     QString fastTokenMech;
     QMap<QString, SmSession *> smSessions;
+    QMap<QString, QByteArray> saltOf;       // SCRAM salt stored per account
     QList<ServerConn *> conns;
     QVector<ReceivedItem> received;         // everything the client ever sent, in order
     QStringList rosterItems;                // xml <item .../> strings
